@@ -1,7 +1,10 @@
 import BoxoModel.C06.Go
 /-! Line-protocol driver for C06 (see /verif/docs/HOWTO.md).
 Ops (all operands are single tokens):
-  parse <spec-hex>                               → err | size N | rabin MIN ⌊log2 AVG⌋ MAX | buzhash
+  parse <spec-hex>                               → err | size N | rabin MIN ⌊log2 AVG⌋ MAX | buzhash | custom
+  register <name-hex>                            → ok | panic        (chunk.Register with a non-nil function)
+  chan <same operands as split>                  → as split (chunks received from chunk.Chan)
+  fail <spec-hex> <frags> <input> <pos>          → checked           (reader failing at <pos>: Go-side monitor only)
   split <spec-hex> <ewd 0|1> <frags> <input> <cands>
                                                  → err | n=<chunks> total=<bytes> lens=<rle>
     frags : -            ideal reader
@@ -88,33 +91,50 @@ def showSpec : Option Spec → String
   | some (.rabin a b c) => s!"rabin {a} {Nat.log2 b} {c}"   -- the library keeps only 2^⌊log2 avg⌋ - 1
   | some .buzhash => "buzhash"
 
-def step (line : String) : String :=
-  match (line.trimAscii.toString.splitOn " ").filter (· ≠ "") with
-  | ["case", n] => s!"case {n}"
-  | ["end"] => "end"
-  | ["parse", sp] => showSpec (parseSpec goLimits (specString sp))
-  | ["split", sp, ewd, fr, inp, cands] =>
-    match parseSpec goLimits (specString sp) with
-    | none => "err"
-    | some spec =>
-      let data := inputOf inp
-      let rd : Rd := { data := data, frags := fragsOf fr data.length, eofWithData := ewd == "1" }
-      let bitmap : ByteArray := Id.run do
-        let mut a := ByteArray.mk (Array.replicate (data.length + 2) 0)
-        for p in nats cands do
-          if p < a.size then a := a.set! p 1
-        return a
-      let chunks := chunksOf goBuzP (512 * 1024) (fun start => start) (fun p _ => p + 1)
-        (fun p => bitmap.get! p == 1) spec rd
-      let lens := chunks.map List.length
-      s!"n={lens.length} total={lens.foldl (· + ·) 0} lens={rle lens}"
-  | _ => "bad-op"
+def showParsed : Option Parsed → String
+  | none => "err"
+  | some (.custom _) => "custom"
+  | some (.builtin sp) => showSpec (some sp)
 
-partial def loop (h : IO.FS.Stream) (out : IO.FS.Stream) : IO Unit := do
+def runSplit (sp ewd fr inp cands : String) : String :=
+  match parseSpec goLimits (specString sp) with
+  | none => "err"
+  | some spec =>
+    let data := inputOf inp
+    let rd : Rd := { data := data, frags := fragsOf fr data.length, eofWithData := ewd == "1" }
+    let bitmap : ByteArray := Id.run do
+      let mut a := ByteArray.mk (Array.replicate (data.length + 2) 0)
+      for p in nats cands do
+        if p < a.size then a := a.set! p 1
+      return a
+    let chunks := chunksOf goBuzP (512 * 1024) (fun start => start) (fun p _ => p + 1)
+      (fun p => bitmap.get! p == 1) spec rd
+    let lens := chunks.map List.length
+    s!"n={lens.length} total={lens.foldl (· + ·) 0} lens={rle lens}"
+
+/-- state: the registry (`Register` calls of the current case; reset at `case`) -/
+def step (reg : Registry) (line : String) : Registry × String :=
+  match (line.trimAscii.toString.splitOn " ").filter (· ≠ "") with
+  | ["case", n] => (builtinNames, s!"case {n}")
+  | ["end"] => (builtinNames, "end")
+  | ["parse", sp] => (reg, showParsed (parseWith goLimits reg (specString sp).toList))
+  | ["register", nm] =>
+    match register reg (specString nm).toList with
+    | some reg' => (reg', "ok")
+    | none => (reg, "panic")
+  | ["split", sp, ewd, fr, inp, cands] => (reg, runSplit sp ewd fr inp cands)
+  -- `Chan(splitter)`: a goroutine calling NextBytes until the first error = `drain`
+  | ["chan", sp, ewd, fr, inp, cands] => (reg, runSplit sp ewd fr inp cands)
+  -- reader failing with a non-EOF error: checked by the Go-side monitor only
+  | ["fail", _, _, _, _] => (reg, "checked")
+  | _ => (reg, "bad-op")
+
+partial def loop (h : IO.FS.Stream) (out : IO.FS.Stream) (reg : Registry) : IO Unit := do
   let line ← h.getLine
   if line.isEmpty then return ()
-  out.putStrLn (step line)
-  loop h out
+  let (reg', o) := step reg line
+  out.putStrLn o
+  loop h out reg'
 
 def main : IO Unit := do
-  loop (← IO.getStdin) (← IO.getStdout)
+  loop (← IO.getStdin) (← IO.getStdout) builtinNames
